@@ -348,6 +348,12 @@ func (r *resolver) resolve(ctx context.Context, vk resolve.VersionKey, requireme
 
 			if id, ok := nodes[match.VersionKey]; ok {
 				// The version key is already in the graph, just add an edge.
+				// The artifact (package key) is resolved to this version
+				// from now on, even though another artifact of the same
+				// coordinates created the node: a later requirement that
+				// selects a different version must be found incompatible.
+				concreteVersions[c] = id
+				resolvedPackages[c.packageKey] = true
 				if err := g.AddEdge(concreteVersions[cur.versionKey], id, d.Version, d.Type); err != nil {
 					return nil, false, err
 				}
